@@ -193,3 +193,86 @@ type bigRat = big.Rat
 func newRat(p int64) *big.Rat { return big.NewRat(p, 1) }
 
 func sortStrings(s []string) { sort.Strings(s) }
+
+// HugeResult is the outcome of the real-magnitude distributor runs.
+type HugeResult struct {
+	Executed int            `json:"executed"`
+	Samples  []graph.M      `json:"samples"`
+	Findings []walkFinding  `json:"findings"`
+	Kinds    map[string]int `json:"kinds"`
+}
+
+type walkFinding struct {
+	Prop     string    `json:"prop"`
+	Kind     string    `json:"kind"`
+	Sig      string    `json:"sig"`
+	Msg      string    `json:"msg"`
+	Path     []graph.M `json:"path"`
+	Expected any       `json:"expected,omitempty"`
+	Observed any       `json:"observed,omitempty"`
+}
+
+// RunHuge runs random valid configurations with deposits around 2^63 and up to 10^30 base units through the
+// real BeginBlocker: no panic (C10, e.g. int64 conversions) and the C03 identity evaluated on the real state.
+func RunHuge(n int, seed int64) (*HugeResult, error) {
+	const P = int64(64)
+	b1, b2 := env.NewUser("b1"), env.NewUser("b2")
+	e := env.New(env.Options{Users: []env.User{b1, b2}})
+	s := &state{env: e, P: P, ids: map[string]string{"m1": dtypes.GreenEnergyBoosterCollector, "m2": dtypes.GovernanceBoosterCollector, "m3": dtypes.ValidatorsRewardsCollector,
+		"b1": b1.Bech32(), "b2": b2.Bech32(), "i1": "internal_one", "i2": "internal_two"}, rids: map[string]string{}}
+	for m, r := range s.ids {
+		s.rids[r] = m
+	}
+	res := &HugeResult{Kinds: map[string]int{}}
+	rng := rand.New(rand.NewSource(seed))
+	app := e.App
+	two63 := new(big.Int).Lsh(big.NewInt(1), 63)
+	amounts := []*big.Int{new(big.Int).Sub(two63, big.NewInt(1)), two63, new(big.Int).Add(two63, big.NewInt(1)), new(big.Int).Lsh(big.NewInt(1), 64),
+		new(big.Int).Exp(big.NewInt(10), big.NewInt(24), nil), new(big.Int).Exp(big.NewInt(10), big.NewInt(30), nil), new(big.Int).Mul(two63, big.NewInt(4)), big.NewInt(7)}
+	for i := 0; i < n; i++ {
+		var c []any
+		var gen dtypes.GenesisState
+		for {
+			c = randDistCfg(rng, P)
+			gen = dtypes.GenesisState{Params: dtypes.Params{SubDistributors: s.buildCfg(c)}}
+			if gen.Validate() == nil {
+				break
+			}
+		}
+		ctx := env.Fork(e.Ctx)
+		s.wipeStore(ctx)
+		cfedistributor.InitGenesis(ctx, app.CfedistributorKeeper, gen, app.AccountKeeper)
+		keys := []string{"MAIN"}
+		for _, x := range c {
+			for _, ax := range graph.List(graph.Rec(x)["sources"]) {
+				a := graph.Rec(ax)
+				if t := graph.Str(a["t"]); t == "MOD" || t == "BASE" {
+					keys = append(keys, t+"-"+graph.Str(a["id"]))
+				}
+			}
+		}
+		desc := graph.M{"cfg": c}
+		for b := 0; b < 3; b++ {
+			k := keys[rng.Intn(len(keys))]
+			amt := amounts[rng.Intn(len(amounts))]
+			dn := []string{"uc4e", "stake"}[rng.Intn(2)]
+			if err := s.deposit(ctx, k, sdk.NewCoins(sdk.NewCoin(dn, sdk.NewIntFromBigInt(amt)))); err != nil {
+				return nil, err
+			}
+			ctx = ctx.WithBlockHeight(ctx.BlockHeight() + 1).WithBlockTime(ctx.BlockTime().Add(5 * time.Second))
+			if p := env.Try(func() { cfedistributor.BeginBlocker(ctx, app.CfedistributorKeeper) }); p != "" {
+				res.Findings = append(res.Findings, walkFinding{Prop: "C10", Kind: "panic", Sig: "num.dist.panic", Msg: fmt.Sprintf("BeginBlocker panicked with a deposit of %s%s on %s: %s", amt, dn, k, p), Path: []graph.M{desc}})
+				break
+			}
+			res.Executed++
+			if msg := s.booksPredicate(s.project(ctx)); msg != "" {
+				res.Findings = append(res.Findings, walkFinding{Prop: "C03", Kind: "predicate", Sig: "num.dist.books", Msg: fmt.Sprintf("after a deposit of %s%s on %s: %s", amt, dn, k, msg), Path: []graph.M{desc}})
+				break
+			}
+		}
+		if len(res.Samples) < 3 {
+			res.Samples = append(res.Samples, desc)
+		}
+	}
+	return res, nil
+}
